@@ -98,7 +98,7 @@ class BuiltinsMixin:
             return self.global_cache[ck]
         t = self.alloc(builtin_class('tuple'))
         s = self.fresh('keys', smt.SeqV)
-        self._add_pc(z3.Length(s) == z3.Select(self.st.dlen, Val.r(d)))
+        self._add_axiom(z3.Length(s) == z3.Select(self.st.dlen, Val.r(d)))
         self.set_seq(t, s)
         self.keyseq_of = getattr(self, 'keyseq_of', {})
         self.keyseq_of[s.get_id()] = d
@@ -122,7 +122,7 @@ class BuiltinsMixin:
         self.st.dct = z3.Store(self.st.dct, Val.r(n), arr)
         ln = self.fresh('mlen', smt.I)
         la, lb = z3.Select(self.st.dlen, Val.r(a)), z3.Select(self.st.dlen, Val.r(b))
-        self._add_pc(z3.And(ln >= la, ln >= lb, ln <= la + lb, la >= 0, lb >= 0))
+        self._add_axiom(z3.And(ln >= la, ln >= lb, ln <= la + lb, la >= 0, lb >= 0))
         self.st.dlen = z3.Store(self.st.dlen, Val.r(n), ln)
         return n
 
@@ -185,7 +185,7 @@ class BuiltinsMixin:
         if c.builtin and c.name in ('list', 'tuple'):
             return smt.simp(Val.int(z3.Length(z3.Select(self.st.seq, r))))
         if c.builtin and c.name in ('dict', 'defaultdict', 'set', 'frozenset'):
-            self._add_pc(z3.Select(self.st.dlen, r) >= 0)
+            self._add_axiom(z3.Select(self.st.dlen, r) >= 0)
             return smt.simp(Val.int(z3.Select(self.st.dlen, r)))
         lk = c.lookup('__len__') if not c.builtin else None
         if lk and lk[0] == 'method':
